@@ -142,8 +142,23 @@ func (u *Unit) execSelect(st *State, fr *Frame, in *ssa.Select) bool {
 		return false // select{} blocks forever
 	}
 	tupleT := in.Type().(*types.Tuple)
+	single := u.contract.Opts["single-goroutine-chan"] != ""
 	mk := func(s *State, idx int) bool {
 		f := s.top()
+		if single {
+			// channels used by one goroutine only: an arm is ready iff its buffer state says so
+			for i, sst := range in.States {
+				c := u.val(s, sst.Chan).Terms[0]
+				pending := fmt.Sprintf("(- %s %s)", u.chanGet(s, "C_sent", c), u.chanGet(s, "C_recvd", c))
+				if sst.Dir == types.RecvOnly {
+					if i == idx {
+						s.assume(fmt.Sprintf("(> %s 0)", pending))
+					} else if idx == n {
+						s.assume(fmt.Sprintf("(<= %s 0)", pending))
+					}
+				}
+			}
+		}
 		vals := []Val{intVal(sInt(int64(idx))), boolVal("true")}
 		if idx >= 0 && idx < n {
 			sst := in.States[idx]
